@@ -79,21 +79,28 @@ func NewWorld(cfg Config, ch *simrt.Chooser) (*World, error) {
 	os.Unsetenv("LC_ALL")
 	os.Unsetenv("LC_CTYPE")
 	os.Unsetenv("LANG")
+	// a lower-priority variable naming another character set must lose
+	decoy := "en_US.UTF-8"
+	if strings.Contains(strings.ToUpper(lc), "UTF-8") || strings.Contains(strings.ToUpper(lc), "UTF8") {
+		decoy = "en_US.ISO8859-1"
+	}
 	switch cfg.LocaleVia {
 	case 1:
 		os.Setenv("LC_CTYPE", lc)
+		os.Setenv("LANG", decoy)
 	case 2:
 		os.Setenv("LANG", lc)
 	case 3:
 		os.Setenv("LC_ALL", "")
 		os.Setenv("LC_CTYPE", lc)
-		os.Setenv("LANG", "en_US.UTF-8")
+		os.Setenv("LANG", decoy)
 	case 4:
 		os.Setenv("LC_ALL", "")
 		os.Setenv("LC_CTYPE", "")
 		os.Setenv("LANG", lc)
 	default:
 		os.Setenv("LC_ALL", lc)
+		os.Setenv("LC_CTYPE", decoy)
 		os.Setenv("LANG", "C")
 	}
 	os.Unsetenv("LINES")
